@@ -95,7 +95,9 @@ FILE_TREES = {
 def _load_tree(bb, name):
     """writes the tree to a fixed place (string hashes of the paths are part of what is observed) and loads main.xbb"""
     import shutil
-    root = os.path.join("/tmp", "bbverif_c19_files", name)
+    # one place per check run (BBVERIF_C19_ROOT is set by main() and inherited by the seed-sweep subprocesses), so that
+    # concurrent runs do not step on each other; a replay on its own uses the fixed default
+    root = os.path.join(os.environ.get("BBVERIF_C19_ROOT") or os.path.join("/tmp", "bbverif_c19_files"), name)
     shutil.rmtree(root, ignore_errors=True)
     try:
         for rel, text in FILE_TREES[name].items():
@@ -294,6 +296,16 @@ print(r["text"]); print(r["what"]); print(r["observed"]); sys.exit(1)
 
 
 def main():
+    import shutil
+    import tempfile
+    os.environ["BBVERIF_C19_ROOT"] = tempfile.mkdtemp(prefix="bbverif_c19_")
+    try:
+        return _main()
+    finally:
+        shutil.rmtree(os.environ["BBVERIF_C19_ROOT"], ignore_errors=True)
+
+
+def _main():
     t = common.tier()
     rep = common.Report(PID, "model_checking")
     rep.rule = ("one case = one script; paths = iteration orders of the string-hashed sets met by the code (forked by the order stub); "
